@@ -25,7 +25,7 @@ inductive Label where
   | dropSender
   -- sending endpoint, internal
   /-- a waiting `send` obtains its permit: the value is queued, `send` returns `Ok(Sending)` -/
-  | admit
+  | grant
   /-- a waiting `send` finds the queue's receiver gone: `SendError::Closed` -/
   | waitFail
   /-- holder task of `Sender::new`: `closed_rx` became `Some` or every clone is gone -/
@@ -111,7 +111,7 @@ def step (c : Cfg) (s : State) : Label → Option State
   | .cancelSend i => if i < s.waiting.length then some { s with waiting := s.waiting.eraseIdx i } else none
   | .clone => if s.handles = 0 ∨ c.oneshot then none else some { s with handles := s.handles + 1 }
   | .dropSender => if s.handles = 0 then none else some { s with handles := s.handles - 1 }
-  | .admit =>
+  | .grant =>
     match s.waiting with
     | v :: ws =>
       if s.impl.isNone ∧ s.q.length < c.cap then
@@ -266,7 +266,7 @@ namespace Remoc.Close
 /-- labels the runtime takes on its own (tasks `send_impl`, `recv_impl`, holder tasks, woken `send`s);
 everything else is chosen by the environment (API calls, drops, the connection failing) -/
 def internalLabels : List Label :=
-  [.admit, .waitFail, .holderRelease, .implTake, .xmitDone, .xmitItemFail, .xmitFail, .implBack, .implConn,
+  [.grant, .waitFail, .holderRelease, .implTake, .xmitDone, .xmitItemFail, .xmitFail, .implBack, .implConn,
    .implEnd, .rSeeClosed, .rSeeGone, .rRecv, .rRecvErr, .rPush, .rPushFail, .lholderRelease]
 
 def Internal (l : Label) : Prop := l ∈ internalLabels
